@@ -123,3 +123,125 @@ def replay_compare_arms(viol):
             cases.append(("X is %d+0, Y is %d+0, t(X %s Y)" % (a, b, op), want))
     cases = sorted(set(cases))
     return run_cases(CMP_PROGRAM, cases, {"model": viol}, "C04", "compare_arms")
+
+
+# ---------------------------------------------------------------- C03
+EVAL_PROGRAM = """
+ev_lit(G) :- catch((G, true), error(E, _), (write(err(E)), nl, fail)).
+show(X) :- write(X), nl.
+"""
+
+
+def replay_evaluators(diffs):
+    """differential run of the compiled and the run-time evaluator on the functors the solver
+    flagged: `X is <literal expr>` in a clause body against `E = <expr>, X is E`."""
+    ops2 = [(7, 2), (-7, 2), (7, -2), (2.5, 2), (1, 3), (12, 18), (5, 0), (0, 5), (2, 10)]
+    ops1 = [(-3,), (2.5,), (0.5,), (0,), (7,), (-2.5,)]
+    clauses, cases = [], []
+    n = 0
+    for d in diffs:
+        f, ar = d["functor"], d["arity"]
+        for ops in (ops2 if ar == 2 else ops1):
+            n += 1
+            args = ",".join(repr(o) if not isinstance(o, float) else repr(o) for o in ops)
+            expr = "'%s'(%s)" % (f.replace("\\", "\\\\").replace("'", "\\'"), args)
+            clauses.append("c%d(X) :- X is %s.\nr%d(X) :- E = %s, X is E." % (n, expr, n, expr))
+            goal = ("catch(c%d(A), error(EA,_), A = err(EA)), catch(r%d(B), error(EB,_), "
+                    "B = err(EB)), ( A == B -> write(same) ; write(differ(A,B)) ), nl" % (n, n))
+            cases.append((goal, "same"))
+    program = EVAL_PROGRAM + "\n".join(clauses) + "\n"
+    return run_cases(program, cases, {"model": diffs}, "C03", "evaluators")
+
+
+# ---------------------------------------------------------------- C09
+LUV_PROGRAM = """
+:- dynamic(q/1).
+:- dynamic(r/2).
+show(X) :- write(X), nl.
+% a call sees exactly the clauses that existed when it started
+t1 :- retractall(q(_)), assertz(q(1)), assertz(q(2)), assertz(q(3)),
+      findall(X, (q(X), ( X =:= 1 -> assertz(q(4)), retract(q(3)) ; true )), L), show(L).
+t2 :- retractall(q(_)), assertz(q(1)), assertz(q(2)),
+      findall(X, (q(X), retract(q(2))), L1), findall(Y, q(Y), L2), show(L1-L2).
+t3 :- retractall(q(_)), assertz(q(1)), findall(X, (q(X), X < 4, Y is X + 1, assertz(q(Y))), L1),
+      findall(Z, q(Z), L2), show(L1-L2).
+t4 :- retractall(r(_,_)), assertz(r(a,1)), assertz(r(b,2)), assertz(r(a,3)),
+      findall(V, (r(a,V), retract(r(a,3)), assertz(r(a,9))), L1), findall(K-W, r(K,W), L2),
+      show(L1-L2).
+t5 :- retractall(q(_)), assertz(q(1)), retract(q(1)), assertz(q(2)), findall(X, q(X), L), show(L).
+"""
+
+
+def replay_logical_update_view(viol):
+    cases = [("t1", "[1,2,3]"), ("t2", "[1,2]-[1]"), ("t3", "[1]-[1,2]"),
+             ("t4", "[1,3]-[a-1,b-2,a-9,a-9]"), ("t5", "[2]")]
+    return run_cases(LUV_PROGRAM, cases, {"model": viol}, "C09", "logical_update_view")
+
+
+# ---------------------------------------------------------------- C02 (libm wiring)
+def replay_float_functions(diffs):
+    """reference values computed by Python's libm (same C library family, correctly rounded for
+    the exactly representable cases chosen; pow cases checked against exact rationals)"""
+    import math
+    from fractions import Fraction
+    cases = []
+
+    def fmt(v):
+        return repr(float(v))
+    table = {
+        "float_pow": [("X is 1.1 ** 10", None), ("X is 1.01 ** 5", None), ("X is 9.9 ** 9", None),
+                      ("X is 2.0 ** 0.5", math.sqrt(2.0))],
+        "int_pow": [("X is 2.5 ^ 3", 15.625), ("X is 1.1 ^ 10", None)],
+        "sqrt": [("X is sqrt(2.0)", math.sqrt(2.0)), ("X is sqrt(16)", 4.0)],
+        "sin": [("X is sin(1.0)", math.sin(1.0))], "cos": [("X is cos(1.0)", math.cos(1.0))],
+        "tan": [("X is tan(1.0)", math.tan(1.0))], "log": [("X is log(10.0)", math.log(10.0))],
+        "exp": [("X is exp(1.0)", math.exp(1.0))], "asin": [("X is asin(0.5)", math.asin(0.5))],
+        "acos": [("X is acos(0.5)", math.acos(0.5))], "atan": [("X is atan(2.0)", math.atan(2.0))],
+        "atan2": [("X is atan2(1.0, 3.0)", math.atan2(1.0, 3.0))],
+        "float_fractional_part": [("X is float_fractional_part(2.75)", 0.75)],
+        "float_integer_part": [("X is float_integer_part(-2.75)", -2.0)],
+        "round": [("X is round(0.49999999999999994)", 0), ("X is round(2.5)", 3),
+                  ("X is round(4503599627370497.0)", 4503599627370497)],
+    }
+    exact_pow = {"X is 1.1 ** 10": (1.1, 10), "X is 1.01 ** 5": (1.01, 5),
+                 "X is 9.9 ** 9": (9.9, 9), "X is 1.1 ^ 10": (1.1, 10)}
+    for d in diffs:
+        for goal, want in table.get(d["kernel"], []):
+            if want is None:
+                b, e = exact_pow[goal]
+                want = float(Fraction(b) ** e)       # correctly rounded exact power
+            w = fmt(want) if isinstance(want, float) else str(want)
+            cases.append((goal + ", write(X), nl", w))
+    return run_cases("", cases, {"model": diffs}, "C02", "float_functions")
+
+
+# ---------------------------------------------------------------- C11
+BT_PROGRAM = """
+:- use_module(library(lists)).
+:- use_module(library(atts)).
+:- use_module(library(dif)).
+:- use_module(library(freeze)).
+show(X) :- write(X), nl.
+p(1). p(2).
+% older heap variable bound inside a failing branch must be unbound again
+t1 :- X = f(_A, B), ( B = 1, fail ; true ), ( var(B) -> show(ok) ; show(bound(B)) ).
+% older variable bound in one clause alternative, retried
+t2 :- findall(Y-Z, (Y = g(W), p(Z), ( Z =:= 1 -> W = a ; true ), ( Z =:= 2 -> ( var(W) -> true ; fail ) ; true )), L), length(L, N), show(N).
+% stack (permanent) variable across a choice point
+t3 :- q3(R), show(R).
+q3(R) :- p(_), r3(V, K), ( K =:= 1 -> V = bound, fail ; R = V-K ).
+q3(none).
+r3(_, 1). r3(_, 2).
+% attributed variable: binding undone on backtracking, constraint still active afterwards
+t4 :- dif(X, a), ( X = b, fail ; true ), ( var(X) -> ( X = a -> show(lost_constraint) ; show(ok) ) ; show(bound(X)) ).
+t5 :- freeze(X, fail), ( \\+ X = 1 -> ( var(X) -> show(ok) ; show(bound) ) ; show(goal_not_run) ).
+% if-then-else condition and negation leave no bindings
+t6 :- ( \\+ (X = 1, Y = 2) -> show(wrong) ; ( var(X), var(Y) -> show(ok) ; show(bound(X,Y)) ) ).
+"""
+
+
+def replay_backtracking(viol):
+    cases = [("t1", "ok"), ("t2", "2"), ("t3", "_-2"), ("t4", "ok"), ("t5", "ok"), ("t6", "ok")]
+    # t3 prints an unbound variable name: normalise by checking only that it is unbound
+    cases[2] = ("q3(R), ( R = V-2, var(V) -> show(ok) ; show(R) )", "ok")
+    return run_cases(BT_PROGRAM, cases, {"model": viol}, "C11", "backtracking")
